@@ -204,6 +204,9 @@ def c19_scenarios(tier, seed):
     for k, (delays, w, sig, at, extra) in enumerate(dl):
         out.append(scen(700 + k, num_workers=w, client_stats=True, probe_socks=8, probe_rounds=1, delays=delays, load={"clients": 4, "requests": 200},
                         signal={"sig": sig, "mode": "load", "delay_ms": at, "limit_ms": 6000}, **extra))
+    # the smallest status interval the configuration accepts (0 s): the reporter is due at every pass
+    out.append(scen(720, num_workers=2, client_stats=True, status_interval=0, probe_socks=8, probe_rounds=1, load={"clients": 4, "requests": 100},
+                    signal={"sig": "TERM", "mode": "load", "delay_ms": 1500, "limit_ms": 5000}))
     # resource fault: file descriptors exhausted when health-check connections arrive, then the signal
     for k, (w, sig) in enumerate([(1, "TERM"), (4, "INT")]):
         out.append(scen(600 + k, num_workers=w, health_check=True, probe_socks=8, probe_rounds=1, fd_exhaust_then_connect=3,
